@@ -2,7 +2,14 @@
 
 package participle
 
+import "github.com/alecthomas/participle/v2/lexer"
+
 // Verification hooks (build tag "verif") are compiled out.
 const verifEnabled = false
 
 func verifEvent(ev string, a, b, c, d int) {}
+
+func verifParseStart(root node, ctx *parseContext, symbols map[string]lexer.TokenType, elide []lexer.TokenType) {
+}
+
+func verifParseEnd(ctx *parseContext, err error) {}
